@@ -31,7 +31,14 @@ TRUSTED = ["IEEE-754: products/quotients of the small dyadic inputs used here ar
            "CPython tuple comparison and slicing (modelled in Core/Py.lean, exercised by every line)",
            "IEEE-754 binary64 round-to-nearest-even of * and / in the normal range is what Fitness.rn64 computes on rationals: every "
            "`rclone` line is answered by the model over Fitness.R64 AND by the machine's Float in the compiled driver (last token = they "
-           "agree), and compared with CPython's floats"]
+           "agree), and compared with CPython's floats",
+           "translator tie: the rendering rules stated in the docstring of harness/py2lean_c01.py (object sub-language of deap/base.py: a method is a function "
+           "of the declared fields wvalues / constraint_violation and the class attribute weights; attribute lookup along a single-inheritance MRO, "
+           "property(g, s, d) bound to the class body's functions, self.m / super(K, self).m / self.__class__() dispatch, mutators in state-passing style, "
+           "an exception = none) and the prelude lean/DeapModel/Core/GenPreludeC01.lean (CPython's slice.indices as Gen01.sliceIdx - differentially tested "
+           "against CPython by `props/c01_translate.py --prelude-test` -, forRet, isum). PROPERTY-LEVEL QUANTITIES ONLY: no metaclass, no property object / "
+           "descriptor protocol, no instance __dict__, no object identity is rendered; the table of declared state and parameter types in "
+           "props/c01_translate.py (CFG) is an assumption of the tie; __str__ / __repr__ (strings) are refused and stay tied by correspondence only"]
 ASSUMPTIONS = ["weights are non-zero finite numbers; values are finite numbers (no NaN)",
                "the read-back clause is claimed for values that are doubles (an integer beyond 2**53 is converted by the "
                "true division of the getter, as documented for Python's `/`); such integers and exact rationals are used for "
@@ -59,7 +66,33 @@ EXPLANATION = ("Theorems C01.* are proved for every linearly ordered field and a
                "themselves (C01.clone_bitwise, no arithmetic), so it is equal for every weight vector; C01.clone_no_recompute shows a clone "
                "rebuilt through the public values is the original iff (x/w)*w = x for every weighted value, which holds in a field "
                "(reclone_field) and fails in binary64 (reclone_witness, recloneInv_witness, kernel-checked on Fitness.R64); the rclone stream "
-               "replays exactly that arithmetic on arbitrary doubles and weights through every cloning route of the real objects.")
+               "replays exactly that arithmetic on arbitrary doubles and weights through every cloning route of the real objects. "
+               "Translator tie: on every run deap/base.py is re-read and 31 definitions Gen01.<Class>_<method> are regenerated (harness/py2lean_c01.py); the 30 "
+               "committed theorems of lean/DeapModel/GenEq/C01.lean.tmpl (each generated definition = the hand-written model, at every scalar type) are "
+               "re-checked by the kernel, so a change of a translated method breaks a proof obligation whatever inputs are sampled; the table translated / "
+               "refused of the run is evidence/C01.translated.json.")
+
+
+def translate(repo):
+    """translator tie (lib._translated_obligations): Lean definitions `Gen01.<Class>_<method>` regenerated from `repo`'s
+    current deap/base.py + the committed theorems `generated = hand-written model` of lean/DeapModel/GenEq/C01.lean.tmpl
+    (harness/py2lean_c01.py, whose docstring is the translator's trusted base)"""
+    from props import c01_translate
+    import json
+    import os
+    import lib
+    tr = c01_translate.translate(repo)
+    try:
+        os.makedirs(os.path.join(lib.OUT, "evidence"), exist_ok=True)
+        with open(os.path.join(lib.OUT, "evidence", "C01.translated.json"), "w") as fh:
+            json.dump({"definitions": len(tr["definitions"]), "theorems": len(tr["theorems"]),
+                       "refused": len(tr["refused"]), "problems": tr["problems"],
+                       "functions": [dict(name=n, status=st, detail=d) for n, st, d in tr["table"]],
+                       "theorem_names": tr["theorems"]}, fh, indent=1)
+            fh.write("\n")
+    except OSError:
+        pass
+    return tr
 
 
 def fr(s):
